@@ -4,7 +4,8 @@ package deviceshare
 //
 // Live path: the REAL Plugin.PreFilter -> Reserve (allocate + updateCacheUsed) -> PreBind (fillID + SetDeviceAllocations
 // onto the pod) on a Plugin literal whose handle only serves the two listers those calls read (node snapshot, Device
-// lister); informer events of the bound / terminated / deleted pods go through the real nodeDeviceCache handlers.
+// lister); informer events of the bound / deleted pods (a terminated pod leaves the scheduler's filtered pod watch, i.e.
+// is a delete too) go through the real nodeDeviceCache handlers.
 // BFS over such histories; every reached state is a cut point "after a bind" (a schedule op runs through bind).
 // Restart path: a FRESH nodeDeviceCache fed ONLY the persisted objects (Device CR + the surviving pod objects with their
 // device-allocated annotation) through onDeviceAdd / onPodAdd / onPodUpdate, in EVERY permutation of the objects, and
@@ -59,7 +60,9 @@ type c19DevHandle struct {
 	nominator frameworkext.ReservationNominator // empty: no reservations in this part
 }
 
-func (h *c19DevHandle) GetReservationNominator() frameworkext.ReservationNominator { return h.nominator }
+func (h *c19DevHandle) GetReservationNominator() frameworkext.ReservationNominator {
+	return h.nominator
+}
 
 func (h *c19DevHandle) SnapshotSharedLister() fwktype.SharedLister { return h.snapshot }
 func (h *c19DevHandle) KoordinatorSharedInformerFactory() koordinatorinformers.SharedInformerFactory {
@@ -78,8 +81,10 @@ func (f *c19DevSnapshot) List() ([]fwktype.NodeInfo, error) {
 	}
 	return out, nil
 }
-func (f *c19DevSnapshot) HavePodsWithAffinityList() ([]fwktype.NodeInfo, error)             { return nil, nil }
-func (f *c19DevSnapshot) HavePodsWithRequiredAntiAffinityList() ([]fwktype.NodeInfo, error) { return nil, nil }
+func (f *c19DevSnapshot) HavePodsWithAffinityList() ([]fwktype.NodeInfo, error) { return nil, nil }
+func (f *c19DevSnapshot) HavePodsWithRequiredAntiAffinityList() ([]fwktype.NodeInfo, error) {
+	return nil, nil
+}
 func (f *c19DevSnapshot) Get(nodeName string) (fwktype.NodeInfo, error) {
 	ni, ok := f.infos[nodeName]
 	if !ok {
@@ -117,7 +122,8 @@ type c19DevCfg struct {
 	maxPods int // surviving bound pod objects at any time
 	depthQ  int
 	depthT  int
-	share   float64
+	share   float64 // share of the unit's time budget, quick tier
+	shareT  float64 // same, thorough tier
 
 	cr     *schedulingv1alpha1.Device
 	handle *c19DevHandle
@@ -849,8 +855,8 @@ func (s *c19DevSys) Key() string {
 
 func c19DevCfgs() []*c19DevCfg {
 	return []*c19DevCfg{
-		{name: "dev-gpu3", gpus: 3, shapes: []string{"W1", "W2", "F50", "F25", "B4G"}, maxPods: 3, depthQ: 4, depthT: 5, share: 0.4},
-		{name: "dev-gpu2-rdma1-vf", gpus: 2, rdma: 1, shapes: []string{"W1", "F50", "M2x50", "R1VF", "G50R1"}, maxPods: 4, depthQ: 3, depthT: 5, share: 0.6},
+		{name: "dev-gpu3", gpus: 3, shapes: []string{"W1", "W2", "F50", "F25", "B4G"}, maxPods: 3, depthQ: 4, depthT: 5, share: 0.7, shareT: 0.4},
+		{name: "dev-gpu2-rdma1-vf", gpus: 2, rdma: 1, shapes: []string{"W1", "F50", "M2x50", "R1VF", "G50R1"}, maxPods: 4, depthQ: 3, depthT: 5, share: 0.3, shareT: 0.6},
 	}
 }
 
@@ -862,12 +868,19 @@ func TestVerifC19Dev(t *testing.T) {
 		c19DevInit(cfg)
 		ops := c19DevOps(cfg)
 		res := mc.NewResult("C19", cfg.name, "bfs")
+		// per-part share of what is left of the unit's budget (time a part does not use flows to the later one)
+		shareOf := func(c *c19DevCfg) float64 {
+			if env.Thorough() {
+				return c.shareT
+			}
+			return c.share
+		}
 		rest := 0.0
 		for _, c := range cfgs[ci:] {
-			rest += c.share
+			rest += shareOf(c)
 		}
 		penv := mc.LoadEnv()
-		penv.Budget = time.Duration(float64(env.Budget-env.Elapsed()) * cfg.share / rest)
+		penv.Budget = time.Duration(float64(env.Budget-env.Elapsed()) * shareOf(cfg) / rest)
 		if penv.Budget < time.Second {
 			penv.Budget = time.Second
 		}
